@@ -5,6 +5,7 @@ package c20
 import (
 	"context"
 	"fmt"
+	"go.opentelemetry.io/otel/attribute"
 	"strings"
 	"testing"
 
@@ -149,16 +150,24 @@ func checkOTel(eng *prog.Engine, kit *otelKit, run *vk.Run) (string, string) {
 	}
 	sums := map[string]int64{}
 	hist := map[string]uint64{}
+	byMode := map[string]int64{} // "<metric>|async=<v>" for data points that carry the async attribute
+	mode := func(name string, set attribute.Set, n int64) {
+		if v, ok := set.Value("async"); ok {
+			byMode[fmt.Sprintf("%s|async=%v", name, v.AsBool())] += n
+		}
+	}
 	for _, sm := range rm.ScopeMetrics {
 		for _, m := range sm.Metrics {
 			switch d := m.Data.(type) {
 			case metricdata.Sum[int64]:
 				for _, dp := range d.DataPoints {
 					sums[m.Name] += dp.Value
+					mode(m.Name, dp.Attributes, dp.Value)
 				}
 			case metricdata.Histogram[float64]:
 				for _, dp := range d.DataPoints {
 					hist[m.Name] += dp.Count
+					mode(m.Name, dp.Attributes, int64(dp.Count))
 				}
 			}
 		}
@@ -174,6 +183,20 @@ func checkOTel(eng *prog.Engine, kit *otelKit, run *vk.Run) (string, string) {
 	if hist["eventbus.handler.duration"] != uint64(runs) || hist["eventbus.persist.duration"] != uint64(attempts) {
 		return fmt.Sprintf("duration histograms count %d/%d for %d handler runs / %d persist attempts", hist["eventbus.handler.duration"], hist["eventbus.persist.duration"], runs, attempts), "histogram-count"
 	}
-	run.Count("metric_points_compared", 7)
+	// the handler metrics carry the dispatch mode: each mode's numbers are its own
+	mruns, mpanics := eng.TruthByMode()
+	for i, label := range []string{"async=false", "async=true"} {
+		for name, v := range map[string]int{"eventbus.handler.count": mruns[i], "eventbus.handler.errors": mpanics[i], "eventbus.handler.duration": mruns[i]} {
+			if _, carries := byMode[name+"|async=false"]; !carries {
+				if _, carries = byMode[name+"|async=true"]; !carries {
+					continue // this metric is not split by mode
+				}
+			}
+			if got := byMode[name+"|"+label]; got != int64(v) {
+				return fmt.Sprintf("metric %s with %s = %d, true number %d", name, label, got, v), "metric-by-mode:" + name
+			}
+		}
+	}
+	run.Count("metric_points_compared", 13)
 	return "", ""
 }
